@@ -465,9 +465,8 @@ pub fn exec(pool: &mut Pool, ev: &mut Value) {
                 if let Some((h, _)) = pool.heap.get(&o) {
                     heap = if *h >= 0 && (*h as u128) <= INT_MAX { *h } else { HUGE_RES };
                 }
-                let int = x.internals();
-                if let Some(l) = int.get("lens") {
-                    lens = l.clone();
+                if let Some(l) = x.field("lens") {
+                    lens = json!(l.into_iter().map(|v| res_val(v as usize)).collect::<Vec<i64>>());
                 }
             }
             set(ev, "rep", json!(rep));
